@@ -58,7 +58,13 @@ fn seq_nontrivial(c: &SeqCase) -> (bool, Vec<&'static str>) {
 pub fn run_seq_case(c: &SeqCase) -> Verdict {
     let d = doc("seq", serde_json::to_value(c).unwrap());
     crash::set_current(&d);
-    let _ = run_seq(c, &Oracles::default(), false);
+    // the remaining calls of a history are issued even after a model oracle of another property
+    // fired: the memory fault may come a few calls later
+    let or = Oracles {
+        continue_for_panics: true,
+        ..Oracles::default()
+    };
+    let _ = run_seq(c, &or, false);
     crash::clear_current();
     let (nt, k) = seq_nontrivial(c);
     Verdict::Pass {
